@@ -2,10 +2,10 @@ SPECIFICATION Spec
 CONSTANTS
   MaxSteps = 6
   MaxIno = 4
-  FIX_REPOINT = FALSE
+  FIX_REPOINT = TRUE
   OPS = FALSE
   MASK_ADD = TRUE
-  MAXQ = 0
+  MAXQ = 2
   ALIAS_OPS = FALSE
 INVARIANTS NoPanic TablesAgree MarksBacked ListOK
 CHECK_DEADLOCK FALSE
